@@ -26,14 +26,14 @@ def predict_all_aliased(model, game):
 
 def plan_spaces(ctx, full_under_k0=None):
     """[(space, cfg name)] of the prediction space G under the prediction configs."""
-    sp0 = ["G2", "G3", "G4", "G5", "GP"] + (["G6", "G7", "G8"] if ctx.thorough else [])
+    sp0 = ["G2", "G3", "G4", "G5", "GP"] + (["G6", "G7", "G8"] if ctx.thorough else ["G6|V2", "G7|V2"])
     out = [(s, "K0") for s in sp0]
     for K in spaces.PREDK[1:]:
         out += [("G2", K), ("G3", K)]
     return out
 
 
-PARTS = {"G2": 8, "G3": 16, "G4": 16, "G5": 8, "G6": 6, "G7": 4, "G8": 12, "GP": 4}
+PARTS = {"G2": 8, "G3": 16, "G4": 16, "G5": 8, "G6": 6, "G7": 4, "G8": 12, "GP": 4, "G6|V2": 1, "G7|V2": 2}
 
 
 def units(ctx, extra=None):
